@@ -554,14 +554,19 @@ pub proof fn lemma_emit_summary(a: Heap, b1: Heap, t: Tid)
         ensures
             //# M1-handler-summary
             handler_summary(*old(h), *final(h), e.id@),
-            //# M1-message-iff-allowed
-            msg_allowed(*final(h), e.id@) ==> final(h).messages.len() > 0 && final(h).messages.last() == (e.id@, msg_state_of(final(h).st(e.id@))),
+            //# M1-message-when-allowed-and-still-in-the-events-state
+            msg_allowed(*final(h), e.id@) && final(h).st(e.id@) == old(h).st(e.id@)
+                ==> final(h).messages.len() > 0 && final(h).messages.last() == (e.id@, msg_state_of(final(h).st(e.id@))),
             //# S2-task-row-written-first
             final(h).upserts.len() > old(h).upserts.len() && final(h).upserts[old(h).upserts.len() as int] == e.id@,
 //@@ proof after=ignore_err#1
         let ghost h1 = *h;
+//@@ proof after=ignore_err#2
+        let ghost h2 = *h;
 //@@ proof at=end
         proof {
+            //# M2-a-message-of-this-event-reports-the-state-the-event-was-raised-for [C08]
+            assert(h.messages.len() > h2.messages.len() ==> h.st(e.id@) == old(h).st(e.id@));
             let n = old(h).upserts.len() as int;
             assert(h1.upserts.is_prefix_of(h.upserts));
             assert(h.upserts.subrange(0, h1.upserts.len() as int) =~= h1.upserts);
